@@ -203,6 +203,11 @@ func genReq(t *rapid.T) Req {
 			q.Key = big(maxKey + rapid.IntRange(1, 50).Draw(t, "over"))
 			defects = append(defects, defect{"key-too-long", 0})
 		}
+		if inject > 0 && len(defects) == 0 && rapid.IntRange(0, 7).Draw(t, "hostileend") == 0 {
+			// a range end longer than a key may be: handled or refused, never a crash
+			q.RangeEnd = big(maxKey + rapid.SampledFrom([]int{1, 2, 200, 2000}).Draw(t, "endover"))
+			hostile = true
+		}
 		r.Wire, _ = q.MarshalVT()
 	case "Txn":
 		q := &regattapb.TxnRequest{Table: table}
@@ -284,7 +289,21 @@ func genReq(t *rapid.T) Req {
 		} else if inject > 0 && rapid.IntRange(0, 5).Draw(t, "hostileop") == 0 {
 			// shapes the documentation does not rule on (nested reads with odd options, empty oneof): only liveness is asserted
 			hostile = true
-			switch rapid.IntRange(0, 3).Draw(t, "hostilewhich") {
+			overlong := func(label string) []byte { return big(maxKey + rapid.SampledFrom([]int{1, 2, 200, 2000}).Draw(t, label)) }
+			switch rapid.IntRange(0, 7).Draw(t, "hostilewhich") {
+			case 4:
+				// BOUNDS (not keys of records) longer than a key may be - the documentation limits keys and values, not range ends and
+				// predicate keys: handled or refused, never a crash (seeded change C16-G: the state machine failed on them)
+				q.Success = append(q.Success, &regattapb.RequestOp{Request: &regattapb.RequestOp_RequestDeleteRange{RequestDeleteRange: &regattapb.RequestOp_DeleteRange{Key: genKey(t, "hk"), RangeEnd: overlong("hover")}}})
+			case 5:
+				q.Compare = append(q.Compare, &regattapb.Compare{Key: overlong("hover"), Result: regattapb.Compare_EQUAL, TargetUnion: &regattapb.Compare_Value{Value: []byte("x")}})
+				q.Failure = append(q.Failure, &regattapb.RequestOp{Request: &regattapb.RequestOp_RequestPut{RequestPut: &regattapb.RequestOp_Put{Key: genKey(t, "hk"), Value: []byte("h")}}})
+			case 6:
+				q.Compare = append(q.Compare, &regattapb.Compare{Key: genKey(t, "hk"), RangeEnd: overlong("hover"), Result: regattapb.Compare_NOT_EQUAL, TargetUnion: &regattapb.Compare_Value{Value: []byte("x")}})
+				q.Success = append(q.Success, &regattapb.RequestOp{Request: &regattapb.RequestOp_RequestPut{RequestPut: &regattapb.RequestOp_Put{Key: genKey(t, "hk2"), Value: []byte("h")}}})
+			case 7:
+				q.Success = append(q.Success, &regattapb.RequestOp{Request: &regattapb.RequestOp_RequestRange{RequestRange: &regattapb.RequestOp_Range{Key: genKey(t, "hk"), RangeEnd: overlong("hover")}}},
+					&regattapb.RequestOp{Request: &regattapb.RequestOp_RequestPut{RequestPut: &regattapb.RequestOp_Put{Key: genKey(t, "hk2"), Value: []byte("h")}}})
 			case 0:
 				q.Success = append(q.Success, &regattapb.RequestOp{})
 			case 1:
@@ -621,6 +640,10 @@ reqs:
 			// being re-established.  (Seen in a thorough run next to a dozen other jobs: reported as "valid request refused" - a false
 			// alarm.)  Neither status is the documented answer to anything; the case ends here, the next one starts from a reset.
 			time.Sleep(2 * time.Second)
+			// ... unless the transport went away because the request brought the process down (it takes a moment until the exit is seen)
+			if f := alive(i, r); f != nil {
+				return f
+			}
 			o.Label("case-cut-short-by-a-timeout-or-unavailable-transport")
 			cutShort = true
 			break reqs
